@@ -128,6 +128,8 @@ def display(I, v):
             I.run_item(it, [Ptr([v], 0), Ptr([fm], 0)], None)
             return fm.out()
         if isinstance(v, Enum) and v.ty == "Value":
+            if v.d == 2 and is_sym(v.f[0].n):
+                return SymStr(v.f[0].n)
             return json_text(I, v)
     if isinstance(v, JNum):
         return display(I, v.n)
@@ -139,11 +141,12 @@ def display(I, v):
 
 
 class SymStr(str):
-    """A string rendering of a symbolic value; compares by identity of the term text."""
+    """The decimal string rendering of a symbolic (non-negative) integer, kept as a z3 string term."""
 
     def __new__(cls, term):
         o = str.__new__(cls, "<sym:%s>" % term.sexpr())
         o.term = term
+        o.zterm = z3.IntToStr(term) if z3.is_int(term) else term
         return o
 
 
@@ -451,7 +454,12 @@ def register(I):
         else:
             if isinstance(x, str) and isinstance(y, str):
                 if isinstance(x, SymStr) or isinstance(y, SymStr):
-                    raise Unsupported("ordering of symbolic strings")
+                    zx = x.zterm if isinstance(x, SymStr) else z3.StringVal(x)
+                    zy = y.zterm if isinstance(y, SymStr) else z3.StringVal(y)
+                    i = I.branch([zx < zy, zx == zy, zy < zx], "str-cmp")
+                    d = i - 1
+                    o = Enum("Ordering", d, [], ["Less", "Equal", "Greater"][d + 1])
+                    return some(o) if "partial_cmp" in cc.norm else o
                 x = x.encode("utf-8")
                 y = y.encode("utf-8")
             d = -1 if x < y else (0 if x == y else 1)
@@ -529,6 +537,11 @@ def register(I):
 
     @pat(r"^<.* as std::string::ToString>::to_string$")
     def _to_string(I, a, cc):
+        v = deref_all(a[0])
+        if isinstance(v, Enum) and v.ty == "Value":
+            if v.d == 2 and is_sym(v.f[0].n):
+                return SymStr(v.f[0].n)
+            return json_text(I, v)
         return display(I, a[0])
 
     @pat(r"^<.* as std::fmt::(Display|Debug)>::fmt$")
